@@ -470,6 +470,24 @@ pub fn generate(seed: u64, limits: &GenLimits, allowed: &Features) -> GenProblem
     if !resources.is_empty() {
         problem["fleet"]["resources"] = Value::Array(resources);
     }
+    // ---- islands for the closed unreachability pattern (shift ends stay on the island of the start)
+    let island_pre: Vec<u8> = (0..n_loc).map(|_| cx.p.chance(0.3) as u8).collect();
+    if f.unreachable && !f.unreachable_random {
+        if let Some(vs) = problem["fleet"]["vehicles"].as_array_mut() {
+            for v in vs {
+                if let Some(shifts) = v["shifts"].as_array_mut() {
+                    for s in shifts {
+                        let start = s["start"]["location"]["index"].as_u64().unwrap_or(0) as usize;
+                        if let Some(end) = s.get("end").and_then(|e| e["location"]["index"].as_u64()) {
+                            if island_pre[end as usize] != island_pre[start] {
+                                s["end"]["location"] = loc(start);
+                            }
+                        }
+                    }
+                }
+            }
+        }
+    }
     let mut used = vec![false; n_loc];
     visit_locations(&mut problem, &mut |i| {
         used[*i] = true;
@@ -484,6 +502,12 @@ pub fn generate(seed: u64, limits: &GenLimits, allowed: &Features) -> GenProblem
     }
     visit_locations(&mut problem, &mut |i| *i = map[*i]);
     let n = next.max(1);
+    let mut island = vec![0u8; n];
+    for i in 0..n_loc {
+        if used[i] {
+            island[map[i]] = island_pre[i];
+        }
+    }
 
     // ---- objectives
     if f.objectives {
@@ -536,25 +560,6 @@ pub fn generate(seed: u64, limits: &GenLimits, allowed: &Features) -> GenProblem
             objs.insert(1.min(objs.len()), json!({ "type": "compact-tour", "job_radius": cx.p.range(1, 4) }));
         }
         problem["objectives"] = Value::Array(objs);
-    }
-
-    // ---- islands for the closed unreachability pattern
-    let island: Vec<u8> = (0..n).map(|_| cx.p.chance(0.3) as u8).collect();
-    if f.unreachable && !f.unreachable_random {
-        if let Some(vs) = problem["fleet"]["vehicles"].as_array_mut() {
-            for v in vs {
-                if let Some(shifts) = v["shifts"].as_array_mut() {
-                    for s in shifts {
-                        let start = s["start"]["location"]["index"].as_u64().unwrap_or(0) as usize;
-                        if let Some(end) = s.get("end").and_then(|e| e["location"]["index"].as_u64()) {
-                            if island[end as usize] != island[start] {
-                                s["end"]["location"] = loc(start);
-                            }
-                        }
-                    }
-                }
-            }
-        }
     }
 
     // ---- matrices
